@@ -501,12 +501,11 @@ def run(ctx):
         return ctx.finish('implementation run crashed', [], [])
 
     ctx.log(f'implementation traces collected at {__import__("time").time() - ctx.t0:.0f}s')
-    run_req = 'run_request hdr_max available_encodings'
-    run_resp = 'run_response available_encodings'
 
-    # ------------------------------------------------------------ stream mk_chunks
-    lits, hist = [], {}
-    for c, tr in zip(mk_cases + big_cases, impl['mk_chunks']):
+    # ------------------------------------------------------------ streams mk_chunks / reader / response
+    flits = []          # (input literal, expected literal, stream, index, describe())
+    hist = {}
+    for i, (c, tr) in enumerate(zip(mk_cases + big_cases, impl['mk_chunks'])):
         framed = bytes.fromhex(tr['framed'])
         body, n = c['body'], c['n']
         key = ('empty' if not body else 'n>=len' if n >= len(body) else 'n=1' if n == 1 else 'multi')
@@ -522,25 +521,19 @@ def run(ctx):
                                      f'(left={tr["left"]}, exc={tr.get("dechunk_exc")})')
         if sig:
             ctx.fail(f'mk_chunks(n={n}, {len(body)} bytes): {why}', {'stream': 'mk_chunks', 'clause': sig},
-                     {'stream': 'mk_chunks', 'case': {'n': n, 'body_hex': body.hex()[:4000]}, 'impl_trace': {k: (v[:400] if isinstance(v, str) else v) for k, v in tr.items()}})
+                     {'stream': 'mk_chunks', 'case': {'n': n, 'body_hex': body.hex()[:4000]},
+                      'impl_trace': {k: (v[:400] if isinstance(v, str) else v) for k, v in tr.items()}})
         if len(body) <= 8000:
-            lits.append((f'({n}, {B(body)})', B(framed)))
-    mism, err = ctx.coq_mism('mk_chunks', HEADER, 'bytes_eqb', 'run_mk_chunks', lits, shard=150, deps=['Http/Gen_Params.vo', 'Http/Negotiation.vo'])
-    if err:
-        ctx.broken('correspondence', 'mk_chunks (coq evaluation)', err)
-    for i in mism[:1]:
-        ctx.broken('correspondence', 'mk_chunks', {'disagreements': len(mism), 'first': {'n': mk_cases[i]['n'], 'body_hex': mk_cases[i]['body'].hex()[:2000],
-                                                                                          'impl': impl['mk_chunks'][i]['framed'][:2000]}})
-    ctx.count('mk_chunks', len(lits), [(c['n'], c['body']) for c in mk_cases], histogram=hist,
+            flits.append((f'(FMk {n} {B(body)})', f'(FBytes {B(framed)})', 'mk_chunks', i))
+    n_mk = sum(1 for x in flits if x[2] == 'mk_chunks')
+    ctx.count('mk_chunks', n_mk, [(c['n'], c['body']) for c in mk_cases], histogram=hist,
               oracle_only_large_bodies=[len(c['body']) for c in big_cases])
     ctx.sample({'stream': 'mk_chunks', 'n': mk_cases[0]['n'], 'body_hex': mk_cases[0]['body'].hex()[:80],
                 'framed_hex': impl['mk_chunks'][0]['framed'][:120]})
 
-    # ------------------------------------------------------------ streams reader / response
-    for name, cases, traces, runner in (('reader', rd_cases, impl['reader'], run_req), ('response', rs_cases, impl['response'], run_resp)):
-        lits, hist, tags = [], {}, {}
-        for c, tr in zip(cases, traces):
-            k = c['kind'] + ('+' + c['mutation'] if c.get('mutation') else '')
+    for name, cases, traces, ctor in (('reader', rd_cases, impl['reader'], 'FReq'), ('response', rs_cases, impl['response'], 'FResp')):
+        hist, tags = {}, {}
+        for i, (c, tr) in enumerate(zip(cases, traces)):
             hist[c['kind']] = hist.get(c['kind'], 0) + 1
             tags[str(tr['tag'])] = tags.get(str(tr['tag']), 0) + 1
             bad = reader_oracle(c, tr, avail) if name == 'reader' else response_oracle(c, tr)
@@ -549,17 +542,8 @@ def run(ctx):
                 ctx.fail(f'{name}: {why}', {'stream': name, 'clause': sig},
                          {'stream': name, 'case': {k2: (v.hex() if isinstance(v, bytes) else v) for k2, v in c.items()},
                           'impl_trace': tr, 'oracle': {'verdict': 'fail', 'clause': sig}})
-            lits.append(reader_literals(c, tr))
-        mism, err = ctx.coq_mism(name, HEADER, 'trace_eqb', runner, lits, shard=120, deps=['Http/Gen_Params.vo', 'Http/Negotiation.vo'])
-        if err:
-            ctx.broken('correspondence', f'{name} (coq evaluation)', err)
-        for i in mism[:1]:
-            c, tr = cases[i], traces[i]
-            model = ctx.coq_eval(HEADER, f'{runner} {lits[i][0]}')
-            ctx.broken('correspondence', name, {'disagreements': len(mism), 'kinds': sorted({cases[j]['kind'] + ':' + str(cases[j].get('mutation')) for j in mism})[:12],
-                                                'first': {'kind': c['kind'], 'mutation': c.get('mutation'), 'te': c['te'], 'cl': c['cl'], 'ce': c['ce'],
-                                                          'data_hex': c['data'].hex()[:600], 'caps': c['caps'][:20], 'impl': {k2: (v[:300] if isinstance(v, str) else v) for k2, v in tr.items()},
-                                                          'model': model[-600:]}})
+            a, b = reader_literals(c, tr)
+            flits.append((f'({ctor} {a})', f'(FTrace {b})', name, i))
         muts = {}
         for c in cases:
             if c.get('mutation'):
@@ -569,14 +553,32 @@ def run(ctx):
                   short_read_cases=sum(1 for c in cases if c.get('short_reads')))
         ctx.sample({'stream': name, 'kind': cases[0]['kind'], 'te': cases[0]['te'], 'cl': cases[0]['cl'], 'ce': cases[0]['ce'],
                     'data_hex': cases[0]['data'].hex()[:100], 'impl': {k2: (v[:80] if isinstance(v, str) else v) for k2, v in traces[0].items()}})
-
+    runner = 'run_framing hdr_max available_encodings'
+    mism, err = ctx.coq_mism('framing', HEADER, 'fres_eqb', runner, [(a, b) for a, b, _, _ in flits], shard=150,
+                             deps=['Http/Gen_Params.vo', 'Http/Negotiation.vo'])
+    if err:
+        ctx.broken('correspondence', 'framing (coq evaluation)', err)
+    by_stream = {}
+    for j in mism:
+        by_stream.setdefault(flits[j][2], []).append(j)
+    allc = {'mk_chunks': mk_cases + big_cases, 'reader': rd_cases, 'response': rs_cases}
+    for name, js in by_stream.items():
+        j = js[0]
+        c, tr = allc[name][flits[j][3]], impl[name][flits[j][3]]
+        model = ctx.coq_eval(HEADER, f'{runner} {flits[j][0]}')
+        ctx.broken('correspondence', name, {
+            'disagreements': len(js),
+            'kinds': sorted({str(allc[name][flits[x][3]].get('kind')) + ':' + str(allc[name][flits[x][3]].get('mutation')) for x in js})[:12],
+            'first': {'case': {k2: (v.hex()[:600] if isinstance(v, bytes) else v) for k2, v in c.items() if k2 not in ('payload', 'plain')},
+                      'impl': {k2: (v[:300] if isinstance(v, str) else v) for k2, v in tr.items()}, 'model': model[-600:]}})
     ctx.log(f'framing streams compared at {__import__("time").time() - ctx.t0:.0f}s')
-    # ------------------------------------------------------------ stream parse_header
-    lits = []
-    for h, tr in zip(ph_cases, impl['parse_header']):
+    # ------------------------------------------------------------ streams parse_header / server_choice / client_choice
+    nlits = []
+    for i, (h, tr) in enumerate(zip(ph_cases, impl['parse_header'])):
         acc = tr['accepted']
         exp = '(@None (list (list N)))' if acc is None else f'(Some {BL([bytes.fromhex(x) for x in acc])})'
-        lits.append((OB(lat(h)), exp))
+        nlits.append((f'(NParse {OB(lat(h))})', f'(NList {exp})', 'parse_header', i))
+        nlits.append((f'(NModelled {OB(lat(h))})', '(NBool true)', 'modelled', i))
         if acc is not None:
             names = [n for n in (bytes.fromhex(x).decode('latin-1') for x in acc) if n.strip(' \t')]
             rq = rfc_qualities(h)
@@ -590,24 +592,11 @@ def run(ctx):
         else:
             ctx.fail(f'parse_header({h!r}) raised {tr.get("exc")}', {'stream': 'parse_header', 'clause': 'raises'},
                      {'stream': 'parse_header', 'case': {'header': h}, 'impl_trace': tr})
-    mism, err = ctx.coq_mism('parse_header', HEADER, 'hdr_eqb', 'run_parse_header', lits, deps=['Http/Negotiation.vo'])
-    unmod, err2 = ctx.coq_mism('parse_header_modelled', HEADER, 'Bool.eqb', 'is_modelled', [(a, 'true') for a, _ in lits], deps=['Http/Negotiation.vo'])
-    if err or err2:
-        ctx.broken('correspondence', 'parse_header (coq evaluation)', err or err2)
-    for i in mism[:1]:
-        ctx.broken('correspondence', 'parse_header', {'disagreements': len(mism), 'first': {'header': ph_cases[i], 'impl': impl['parse_header'][i],
-                   'model': ctx.coq_eval(HEADER, f'run_parse_header {lits[i][0]}')[-400:]}})
-    ctx.count('parse_header', len(ph_cases) - len(unmod), set(ph_cases), not_modelled_q_strings=len(unmod),
-              rfc_wellformed=sum(1 for h in ph_cases if rfc_qualities(h) is not None),
-              with_zero_quality=sum(1 for h in ph_cases if h and re.search(r'q\s*=\s*0(\.0*)?\s*(,|$)', h)))
-    ctx.sample({'stream': 'parse_header', 'header': ph_cases[1], 'impl': impl['parse_header'][1]})
-
-    # ------------------------------------------------------------ stream server_choice
-    lits, nsome = [], 0
-    for (h, en), tr in zip(sc_cases, impl['server_choice']):
+    n_srv = n_cli = 0
+    for i, ((h, en), tr) in enumerate(zip(sc_cases, impl['server_choice'])):
         chosen = None if tr['chosen'] is None else bytes.fromhex(tr['chosen']).decode('latin-1')
-        nsome += chosen is not None
-        lits.append((f'({OB(lat(h))}, {BL([lat(e) for e in en])})', f'(Some {OB(lat(chosen))})'))
+        n_srv += chosen is not None
+        nlits.append((f'(NServer {OB(lat(h))} {BL([lat(e) for e in en])})', f'(NChoice (Some {OB(lat(chosen))}))', 'server_choice', i))
         bad = choice_oracle(h, en, chosen)
         if not tr['consistent'] or tr['exc']:
             bad = ('inconsistent', f'Content-Encoding header / compression call / body disagree or raised: {tr}')
@@ -615,32 +604,38 @@ def run(ctx):
             ctx.fail(f'server: {bad[1]}', {'stream': 'server_choice', 'clause': bad[0]},
                      {'stream': 'server_choice', 'case': {'accept_encoding': h, 'enabled': en}, 'impl_trace': tr,
                       'oracle': {'verdict': 'fail', 'clause': bad[0]}})
-    mism, err = ctx.coq_mism('server_choice', HEADER, 'choice_eqb', 'run_server_choice', lits, deps=['Http/Negotiation.vo'])
-    if err:
-        ctx.broken('correspondence', 'server_choice (coq evaluation)', err)
-    for i in mism[:1]:
-        ctx.broken('correspondence', 'server_choice', {'disagreements': len(mism), 'first': {'header': sc_cases[i][0], 'enabled': sc_cases[i][1],
-                   'impl': impl['server_choice'][i], 'model': ctx.coq_eval(HEADER, f'run_server_choice {lits[i][0]}')[-300:]}})
-    ctx.count('server_choice', len(sc_cases), [(h, tuple(en)) for h, en in sc_cases], coding_chosen=nsome)
-
-    # ------------------------------------------------------------ stream client_choice
-    lits, nsome = [], 0
-    for c, tr in zip(cc_cases, impl['client_choice']):
+    for i, (c, tr) in enumerate(zip(cc_cases, impl['client_choice'])):
         chosen = None if tr['chosen'] is None else bytes.fromhex(tr['chosen']).decode('latin-1')
-        nsome += chosen is not None
-        lits.append((f'({BL([lat(x) for x in c["request_encodings"]])}, {BL([lat(x) for x in c["supported"]])})', OB(lat(chosen))))
+        n_cli += chosen is not None
+        nlits.append((f'(NClient {BL([lat(x) for x in c["request_encodings"]])} {BL([lat(x) for x in c["supported"]])})',
+                      f'(NCoding {OB(lat(chosen))})', 'client_choice', i))
         bad = choice_oracle(c['header'], c['supported'], chosen)
         if not tr['consistent'] or tr['exc']:
             bad = ('inconsistent', f'request Content-Encoding and compression call disagree or raised: {tr}')
         if bad:
             ctx.fail(f'client: {bad[1]}', {'stream': 'client_choice', 'clause': bad[0]},
                      {'stream': 'client_choice', 'case': c, 'impl_trace': tr, 'oracle': {'verdict': 'fail', 'clause': bad[0]}})
-    mism, err = ctx.coq_mism('client_choice', HEADER, 'obytes_eqb', 'run_client_choice', lits, deps=['Http/Negotiation.vo'])
+    mism, err = ctx.coq_mism('negotiation', HEADER, 'nres_eqb', 'run_neg', [(a, b) for a, b, _, _ in nlits], shard=500,
+                             deps=['Http/Negotiation.vo'])
     if err:
-        ctx.broken('correspondence', 'client_choice (coq evaluation)', err)
-    for i in mism[:1]:
-        ctx.broken('correspondence', 'client_choice', {'disagreements': len(mism), 'first': {'case': cc_cases[i], 'impl': impl['client_choice'][i]}})
-    ctx.count('client_choice', len(cc_cases), [(tuple(c['request_encodings']), tuple(c['supported'])) for c in cc_cases], coding_chosen=nsome)
+        ctx.broken('correspondence', 'negotiation (coq evaluation)', err)
+    unmod = [nlits[j][3] for j in mism if nlits[j][2] == 'modelled']
+    by_stream = {}
+    for j in mism:
+        if nlits[j][2] != 'modelled':
+            by_stream.setdefault(nlits[j][2], []).append(j)
+    ncases = {'parse_header': ph_cases, 'server_choice': sc_cases, 'client_choice': cc_cases}
+    for name, js in by_stream.items():
+        j = js[0]
+        ctx.broken('correspondence', name, {'disagreements': len(js), 'first': {
+            'case': ncases[name][nlits[j][3]], 'impl': impl[name][nlits[j][3]],
+            'model': ctx.coq_eval(HEADER, f'run_neg {nlits[j][0]}')[-400:]}})
+    ctx.count('parse_header', len(ph_cases) - len(unmod), set(ph_cases), not_modelled_q_strings=len(unmod),
+              rfc_wellformed=sum(1 for h in ph_cases if rfc_qualities(h) is not None),
+              with_zero_quality=sum(1 for h in ph_cases if h and re.search(r'q\s*=\s*0(\.0*)?\s*(,|$)', h)))
+    ctx.sample({'stream': 'parse_header', 'header': ph_cases[1], 'impl': impl['parse_header'][1]})
+    ctx.count('server_choice', len(sc_cases), [(h, tuple(en)) for h, en in sc_cases], coding_chosen=n_srv)
+    ctx.count('client_choice', len(cc_cases), [(tuple(c['request_encodings']), tuple(c['supported'])) for c in cc_cases], coding_chosen=n_cli)
 
     # ------------------------------------------------------------ oracle streams e2e / raw / codec
     hist = {'req_coded': 0, 'req_chunked': 0, 'resp_coded': 0, 'resp_chunked': 0}
